@@ -1198,6 +1198,32 @@ def lib_choice(ex, args, kwargs, pc):
     return out
 
 
+def lib_permutation(ex, args, kwargs, pc):
+    """jax.random.permutation(key, x, axis=0, independent=False) — assumed contract: x o pi along axis 0 with pi a bijection
+    of [0, n); with independent=True on an array of rank >= 2 every 1-D slice along the axis is shuffled with its own
+    bijection (rows are NOT kept together)."""
+    key, a = args[0], args[1]
+    axis = kwargs.get("axis", args[2] if len(args) > 2 else 0)
+    independent = kwargs.get("independent", args[3] if len(args) > 3 else False)
+    if not isinstance(a, SArr) or axis != 0:
+        raise Unsupported("jax.random.permutation: only arrays along axis 0 are modelled")
+    n = a.shape[0]
+    rank = len(a.shape)
+    if not independent or rank == 1:
+        pi = fresh_fun("pi", z3.IntSort(), z3.IntSort())
+        inv = fresh_fun("pi_inv", z3.IntSort(), z3.IntSort())
+        out = SArr(a.shape, lambda i, *r: a.elem(pi(zint(i)), *r), a.dtype)
+        out.perm = (pi, inv, n, a, None)
+    else:
+        pi_ = fresh_fun("pi_ind", *([z3.IntSort()] * (rank + 1)))
+        inv_ = fresh_fun("pi_ind_inv", *([z3.IntSort()] * (rank + 1)))
+        out = SArr(a.shape, lambda i, *r: a.elem(pi_(zint(i), *[zint(x) for x in r]), *r), a.dtype)
+        zeros = [z3.IntVal(0)] * (rank - 1)
+        out.perm = ((lambda x: pi_(zint(x), *zeros)), (lambda x: inv_(zint(x), *zeros)), n, a, None)
+    ex.perms = getattr(ex, "perms", []) + [out.perm]
+    return out
+
+
 def perm_axioms(perm, points):
     """instantiate the permutation contract at the given index terms"""
     pi, inv, n, a, p = perm
@@ -1596,11 +1622,13 @@ def lib_identity_decorator(ex, args, kwargs, pc):
 
 
 LIB = {
+    "jax.device_put": lambda ex, args, kwargs, pc: args[0],      # placement only: the value is unchanged
     "jax.lax.cond": lib_cond,
     "jax.lax.dynamic_slice": lib_dynamic_slice,
     "jax.lax.dynamic_update_slice": lib_dynamic_update_slice,
     "jax.random.split": lib_split,
     "jax.random.choice": lib_choice,
+    "jax.random.permutation": lib_permutation,
     "jax.random.uniform": lib_uniform,
     "eqx.tree_at": lib_tree_at,
     "jnp.repeat": lib_repeat,
